@@ -51,7 +51,7 @@ func vfC07_Server() {
 	}
 	// method selection message: nm methods, the wanted one at a symbolic position (or nowhere)
 	nm := vfInt("nmethods")
-	vfAssume(nm >= 1 && nm <= 255)
+	vfAssume(nm >= 1 && nm <= vfCase("maxMethods"))
 	methods := vfBytes("methods", nm)
 	pos := vfInt("methodPos")
 	offered := vfBool("offered")
@@ -87,7 +87,7 @@ func vfC07_Server() {
 	vfAssert(err == nil, "server config")
 	c := &vfConn{}
 	c.data = stream
-	c.frags = 2
+	c.frags = vfCase("frags")
 	req, err := server.HandleStream(c, zap.NewNop())
 
 	if !offered {
